@@ -30,7 +30,7 @@ NOT_COVERED = ["raw_command (sends caller bytes by design)", "HashClient multi-k
                "command text of stats/cache_memlimit (not yet mechanised; version / quit / shutdown are)",
                "uniqueness of the strict parse (lemma strict-parse of DESIGN 4.2 is not mechanised; token classes are proved)",
                "the empty prefixed key: recorded known finding, re-confirmed by witness replay each run"]
-BUDGET = {"quick": 30, "thorough": 120}
+BUDGET = {"quick": 40, "thorough": 120}
 FILTER_BY_PROPERTY = True
 REPLAY_OUT_OF_REACH = True
 DEPENDS = ["C20"]      # check_key_helper's contract (used by every command builder)
